@@ -75,6 +75,14 @@ pub fn build_case(seed: u64, case: u64) -> FaultCase {
         let pos = rng.usize(history.len() + 1);
         history.splice(pos..pos, m);
     }
+    if rng.chance(1, 3) {
+        // several sealed memtables holding versions of one key when the next flush / compaction / ingestion runs (and
+        // possibly fails): what a failed flush leaves behind in the synchronous API
+        let k = rng.usize(uni.keys.len().max(1));
+        let m = vec![Op::Put { k, vlen: 12 }, Op::Rotate, Op::Put { k, vlen: 13 }, Op::Rotate, Op::Del { k }, Op::Rotate, Op::Put { k, vlen: 14 }];
+        let pos = rng.usize(history.len() + 1);
+        history.splice(pos..pos, m);
+    }
     for op in &mut history {
         match op {
             Op::Put { vlen, .. } => *vlen = (*vlen).min(200),
